@@ -240,7 +240,7 @@ Ltac norm_model :=
     czero cone vdot transpose_aux transpose mmul kron can1 mat_column get_matrix circuit_matrix_from
     circuit_matrix gates_matrix
     reindex_gate reindex_gates reindexed_matrix argmax_row argmax_rows argmax_entry mat_get mat_scale
-    equiv_up_to_phase check_replacement
+    close_c_tol mat_allclose_tol equiv_up_to_phase check_replacement
     axis_comp clamp1 aba_angles rot_gate filter_identities aba_gates aba_decompose
     x90 rz mckay_gates mckay_decompose
     dg run_rule run_replacer run_decomposer decompose_loop decompose replace].
